@@ -150,9 +150,20 @@ func fcGuarded(fn func()) (out string, detail string) {
 	case o := <-done:
 		return o[0], o[1]
 	case <-time.After(3 * time.Second):
-		return "timeout", ""
 	}
+	// scheduling delay on a loaded machine is not a blocked call: extend unless timeouts are systematic
+	if fcConfirmedTimeouts < 3 {
+		select {
+		case o := <-done:
+			return o[0], o[1]
+		case <-time.After(27 * time.Second):
+		}
+	}
+	fcConfirmedTimeouts++
+	return "timeout", ""
 }
+
+var fcConfirmedTimeouts int
 
 func fcGweis(b []int) []forkchoice.Gwei {
 	out := make([]forkchoice.Gwei, len(b))
